@@ -286,7 +286,8 @@ class SqlImpl(TableImpl):
             impl = cls.get_impl(expr.op, tuple(arg.dtype() for arg in expr.args))
             impl = functools.partial(impl, _Impl=cls)
 
-            if order_by is not None and expr.ftype() == Ftype.AGGREGATE:
+            # (the constant terms of `arrange` are not rendered, so the list may be empty)
+            if order_by and expr.ftype() == Ftype.AGGREGATE:
                 # some backends need to do preprocessing and some postprocessing here,
                 # so we just give them full control by passing the responsibility of
                 # calling the `impl`.
